@@ -24,3 +24,22 @@ Theorem C11_invariant :
   forall c n prog s, wf_prog n prog -> reach c (init n prog) s -> inv_safe c s = true.
 Proof. exact safe_reach. Qed.
 Print Assumptions C11_invariant.
+
+(* without block allocation: a fresh process per call — in every execution of the per-call
+   executor model every process receives at most one call, and when it receives it no call has
+   reached it before and nothing is left in its private queue *)
+From EL Require Import Model.StepExec Proofs.StepSafe.
+Theorem C11_fresh_process_per_call :
+  forall c n prog x tr k,
+    wf_prog n prog -> xreach_tr c (xinit n prog) x tr -> mcalls k tr <= 1.
+Proof. exact step_at_most_one_call. Qed.
+Print Assumptions C11_fresh_process_per_call.
+
+Theorem C11_process_is_fresh_when_called :
+  forall c n prog x t x' k i,
+    wf_prog n prog -> xreach c (xinit n prog) x -> xstep c x t = Some (x', LZRecvP k (MCall i)) ->
+    (forall tr, xreach_tr c (xinit n prog) x tr -> mcalls k tr = 0) /\
+    (exists j w, nth_error (ws (base x)) j = Some w /\ wproc w = k /\ wp w = WRecv i /\
+                 count is_task (qitems (getq (base x) (wq w))) = 0).
+Proof. exact step_one_call_per_process. Qed.
+Print Assumptions C11_process_is_fresh_when_called.
